@@ -92,6 +92,50 @@ fn mutate(src: &str, rng: &mut Rng, kind: u64, counter: &mut usize) -> String {
     out
 }
 
+/// one to three parenthesized groups get a second pair of parentheses (redundant by construction)
+fn double_parens(src: &str, rng: &mut Rng) -> Option<String> {
+    let raw = crate::c11::raw_stream(src);
+    let mut depth = 0usize;
+    let mut stack: Vec<usize> = Vec::new();
+    let mut pairs: Vec<(usize, usize)> = Vec::new();
+    for (k, c) in raw.classes.iter().enumerate() {
+        match c {
+            | crate::c11::Raw::Open => depth += 1,
+            | crate::c11::Raw::Close if depth > 0 => depth -= 1,
+            | crate::c11::Raw::Code if depth == 0 => {
+                let (a, b) = raw.spans[k];
+                match &src[a..b] {
+                    | "(" => stack.push(a),
+                    | ")" => {
+                        if let Some(open) = stack.pop() {
+                            pairs.push((open, b));
+                        }
+                    }
+                    | _ => {}
+                }
+            }
+            | _ => {}
+        }
+    }
+    if pairs.is_empty() {
+        return None;
+    }
+    let mut chosen: Vec<(usize, usize)> = (0..1 + rng.below(3)).map(|_| *rng.pick(&pairs)).collect();
+    chosen.sort();
+    chosen.dedup();
+    let mut inserts: Vec<(usize, char)> = Vec::new();
+    for (a, b) in chosen {
+        inserts.push((a, '('));
+        inserts.push((b, ')'));
+    }
+    inserts.sort_by(|x, y| y.0.cmp(&x.0));
+    let mut out = String::from(src);
+    for (at, ch) in inserts {
+        out.insert(at, ch);
+    }
+    Some(out)
+}
+
 /// exactly one comment at one token gap
 fn mutate1(src: &str, rng: &mut Rng, counter: &mut usize) -> String {
     let raw = crate::c11::raw_stream(src);
@@ -158,6 +202,11 @@ pub fn run(opts: &Opts) -> i32 {
             let prefix = if rng.chance(1, 3) { directive(&mut rng) } else { String::new() };
             let suffix = if prefix.is_empty() { "" } else { "+directive" };
             inputs.push((format!("generated:{k}{suffix}"), format!("{prefix}{text}")));
+            for _ in 0..2 {
+                if let Some(doubled) = double_parens(&text, &mut rng) {
+                    inputs.push((format!("genparen:{k}{suffix}"), format!("{prefix}{doubled}")));
+                }
+            }
             let n_comment = if opts.thorough() { 4 } else { 2 };
             for _ in 0..n_comment {
                 inputs.push((format!("gencomment:{k}{suffix}"), format!("{prefix}{}", mutate1(&text, &mut rng, &mut counter))));
@@ -165,6 +214,15 @@ pub fn run(opts: &Opts) -> i32 {
         }
         for (f, v) in features {
             sink.add(&format!("surfgen_{f}"), v);
+        }
+    }
+    // redundant parentheses on the maintained sources
+    for (k, (p, t)) in corpus.iter().enumerate() {
+        let n = if opts.thorough() { 8 } else if k % 2 == 0 { 1 } else { 0 };
+        for _ in 0..n {
+            if let Some(doubled) = double_parens(t, &mut rng) {
+                inputs.push((format!("paren:{}", p.display()), doubled));
+            }
         }
     }
     // horizontal-spacing pairs (C14): the mutant must format to the same text as its original
